@@ -21,6 +21,22 @@ CHECKS = {
     technique='SMT queries over a whole-return model composed from path-exhaustive symbolic summaries of the real line definitions (z3: solved and not balance / solved and line < 0 must be unsat for non-negative inputs), witnesses replayed on the real Solver',
     text='For every year z3 is asked for a solved return (inputs >= 0, whole cents, symbolic filing status, K copies per input form / S in total) in which 34-37 != 33-24, both 34 and 37 are positive, 35a+36 != 34, or a line that the forms define as non-negative (oracle/nonneg.json, ~60 lines) is negative; unsat = impossible inside the bound. figure_tax is replaced by the rate-schedule term C07 proves it equal to, rounding by the banded model (identity on operands already on the cent grid). Witnesses are replayed on the uninstrumented Solver; reachability twins guard against vacuity. NC balance only in the thorough tier.',
     design='4 C15', note=TB + '; oracle/nonneg.json lists the lines the forms define as non-negative'),
+ 'C11': dict(
+    technique='bounded symbolic execution of the real input layer on a symbolic string (code-point array + length, z3 decides path feasibility); float()/int()/re as symbolic DFAs validated against CPython; finiteness by SMT query',
+    text='For each input class (String, Boolean, Integer, Float, Enum with/without empty, the two shipped regex inputs, SSN) the real InputStore.__getitem__, valid(), value() and prompt_input run on a symbolic ASCII string of bounded length (4-11 characters by class); every feasible path is a region of input texts on which the assertions (value => valid and declared type and finite; rejected => InvalidInput; present <=> no MissingInput; prompt loop returns only valid text) are evaluated, finiteness as an SMT query. Holds for every ASCII text up to the bound; witness texts are replayed on the real code.',
+    design='4 C11', note=TB + '; grammar DFAs of float()/int() and the two regexes are the stub contract (self-test compares them with CPython on an adversarial corpus); non-ASCII outside'),
+ 'C12': dict(
+    technique='bounded symbolic execution of the real TypedField/FloatField/EnumField.value on an SMT-chosen tagged return value with symbolic payload; rounding grid/band by SMT query',
+    text='For every field class and places in {0,2,5} the definition returns a value whose tag (None, bool, int, float, blank text, text, member of the right / of another enum) is an SMT choice and whose payload is symbolic; on each path the stored result must have exactly the declared type, None/blank must become the empty value, money must be on the 10^-places grid within half a unit of the returned value (z3), and every other tag must raise a TypeError naming the line. Violations are replayed on the real code.',
+    design='4 C12', note=TB + '; banded rounding model (DESIGN 3.3)'),
+ 'C18': dict(
+    technique='symbolic execution of the real ButtonPDFField.value and mapping lambdas on a symbolic driving value per check-box group, and of needs_filing() on symbolic line values (z3 decides exclusivity / fileability); finite-domain comparison of every mapping with the field tree parsed from the bundled PDFs',
+    text='All ~1245 mappings of all years are compared with the template field tree re-extracted from the bundled PDFs on every run (XFA accessibility text, AcroForm names, appearance states, MaxLen): target exists, line label agrees, no double mapping, mapped line exists, export value known to the widget, length limits agree. For every group of boxes sharing a template parent and a driving line the real value()/value_fn run on a symbolic Bool / nullable enum member / int and z3 shows no value switches two boxes on; needs_filing() runs on symbolic line values to decide which forms can require filing (those need template + mappings). (Q1: the table part is finite-domain.)',
+    design='4 C18', note=TB + '; hv.pdftemplate parser (XFA names cross-checked against AcroForm names); oracle/pdf_label_exceptions.json'),
+ 'C20': dict(
+    technique='exhaustive exploration, with SMT-enumerated session variables (missing-input subset, cut index k, interruption kind), of the real habutax.solve(args) with prompting and write-back over real temp files; base inputs from the whole-return model',
+    text='Sessions of the real CLI solve path (real configparser, real temp files, scripted input()) are enumerated exhaustively: every non-empty subset of 4 (quick) / 6 candidate inputs missing from the file, every prompt index k at which the session is cut, by KeyboardInterrupt, EOFError, or by reaching the unsupported Schedule 2. Afterwards the file must parse, hold every prior value and every answer given before the cut, and a re-run must not ask for those again. The base input assignment is a solved return found by z3 on the whole-return model. (Q1: finite-domain exploration; each session is a concrete run.)',
+    design='4 C20', note=TB + '; a deterministically failing line after a prompt is not available in the shipped forms (covered through the unsupported-form abort only)'),
  'C07': dict(
     technique='bounded symbolic execution of the real figure_tax on a symbolic real income (proxy objects through the real bytecode, z3 decides path feasibility) + per-path SMT equivalence with the statutory rate schedule',
     text='Every path of the real figure_tax/figure_tax_table/figure_tax_worksheet (one per table row and worksheet row, for each year and each of the 5 statuses) is enumerated by the symbolic executor; for each, z3 proves value(x) == schedule(x) for every real x on that path (unsat of the negation), that no feasible x falls through, and monotonicity across adjacent pieces. Holds for all real x in [0,1e12]; float rounding of the worksheet kernel is bounded by an NRA lemma under the IEEE standard model. Witnesses are replayed on the uninstrumented code before being reported.',
